@@ -135,7 +135,8 @@ PENDING = "check not yet built in this round (see DESIGN.md §4 for the rules pl
 # rules added after the seeding / false-alarm / defect-hunt rounds (DESIGN §10): appended to the texts above
 EXTRA = {
     "C11": " Also: every exit of the string-alias branch is the forward reference in the alias's module; the graph's revisit test consults the annotation and its unwrapped form; refs.forwardref/_resolve_module_name naming rules; helper contracts of refs.evaluate, inspection.args, get_type_hints.",
-    "C12": " Also: closures that outlive their maker never write captured variables; no memoised one-shot objects; memoised renderers only of exact-equality parameters.",
+    "C12": " Also: closures that outlive their maker never write captured variables; no memoised one-shot objects; memoised renderers only of exact-equality parameters; a function memoised on == of an annotation does not read the annotation's members into its result (get_args / args / __args__ / getattr(t, '__args__')).",
+    "C02": " Also: a hand-rolled memo of codec() holds every configuration parameter itself in its key (a projection of a coder -- its qualified name, an id -- is not the coder).",
     "C13": " Also: every named constructor parameter yields a signature hint (guards on parameter kinds evaluated on the IntEnum order); a result rebuilt from attributes of the input reads a set that determines the class (Pattern: pattern+flags).",
     "C14": " Also: a Literal text member is matched on the decoded text of every carrier before the loader may re-type it; memoryview decoded from its own bytes.",
     "C16": " Also: the unwrap rules (R11.1) and the forwardref naming rules (R11.7) are shared in, since the lookup keys are built by them; the reference consulted last is built from the queried key itself (R16.8).",
